@@ -505,9 +505,16 @@ class Printer:
             return f'{p}default:\n' + self.stmt(inner[0], ind + 1)
         if k == 'CXXThrowExpr':
             return self.throw_stmt(p)
+        crit = self.critical_call(n)
+        if crit is not None:
+            self.may_throw = True
+            self.note('critical(cond, ...) -> conditional throw')
+            return f'{p}if ({self.cond(crit)})\n' + self.throw_stmt(p + '  ')
+        if k == 'CXXForRangeStmt':
+            return self.range_for(n, ind)
         if k in ('ExprWithCleanups',) and inner and inner[0].get('kind') == 'CXXThrowExpr':
             return self.throw_stmt(p)
-        if k in ('CXXTryStmt', 'CXXCatchStmt', 'GotoStmt', 'LabelStmt', 'CXXForRangeStmt', 'LambdaExpr'):
+        if k in ('CXXTryStmt', 'CXXCatchStmt', 'GotoStmt', 'LabelStmt', 'LambdaExpr'):
             raise Unsupported(f'statement kind {k} (target {self.cname})')
         # expression statement
         e = self.expr(n)
@@ -515,6 +522,38 @@ class Printer:
             self.dropped.append(n.get('range', {}).get('begin', {}).get('line', '?'))
             return self.after(p)
         return f'{p}{e};\n' + self.after(p)
+
+    def critical_call(self, n):
+        """nano::critical(condition, message...) used as a statement: returns the condition node (messages are only
+        formatted into the exception text and are not translated)"""
+        u = n
+        while u.get('kind') in TRANSPARENT and u.get('inner'):
+            u = u['inner'][0]
+        if u.get('kind') != 'CallExpr' or not u.get('inner'):
+            return None
+        rd = unwrap(u['inner'][0]).get('referencedDecl', {})
+        if rd.get('name') != 'critical' or len(u['inner']) < 2:
+            return None
+        return u['inner'][1]
+
+    def range_for(self, n, ind):
+        """range-based for, printed from clang's own desugaring (__range, __begin, __end, condition, increment, loop
+        variable); the container's begin/end/iterator operations go through the spec's mappings"""
+        inner = n['inner']
+        if len(inner) != 8:
+            raise Unsupported('range-for with unexpected shape')
+        init, rng, beg, end, cond, inc, var, body = inner
+        p = '  ' * ind
+        s = f'{p}{{\n'
+        for d in (init, rng, beg, end):
+            if d:
+                s += self.stmt(d, ind + 1)
+        mac = self.loop_macro()
+        s += f'{p}  for (; {self.cond(cond)}; {self.cond(inc)})\n{p}  {mac}\n{p}  {{\n'
+        s += self.stmt(var, ind + 2)
+        s += self.block(body, ind + 2)
+        s += f'{p}  }}\n{p}}}\n'
+        return s
 
     def block(self, n, ind):
         if n.get('kind') == 'CompoundStmt':
@@ -542,6 +581,24 @@ class Printer:
             ps.append(f'{self.ctype(q["type"])} {q.get("name", "nv_unnamed")}')
         ps += list(extra_params)
         text = self.stmt(body, 0)
+        inits = [c for c in d['inner'] if c.get('kind') == 'CXXCtorInitializer']
+        if inits:
+            pre = ''
+            for c in inits:
+                any_ = c.get('anyInit')
+                if not any_ or not c.get('inner'):
+                    if c.get('baseInit'):
+                        e = self.expr(c['inner'][0]) if c.get('inner') else '((void)0)'
+                        pre += f'  {e};\n' if e != '((void)0)' else ''
+                        continue
+                    raise Unsupported('constructor initialiser without a member')
+                e = c['inner'][0]
+                if e.get('kind') == 'CXXDefaultInitExpr':
+                    e = e['inner'][0] if e.get('inner') else None
+                    if e is None:
+                        raise Unsupported(f'default member initialiser of {any_["name"]} is not in the dump')
+                pre += f'  self->{any_["name"]} = {self.expr(e)};\n' + self.after('  ')
+            text = text.replace('{\n', '{\n' + pre, 1)
         sig = f'{rc} {self.cname}({", ".join(ps) if ps else "void"})'
         self.signature = sig
         self.params = ps
